@@ -4,6 +4,7 @@
   `Gen.statementLiterals`, `Gen.cloneLiteral`, `Gen.getInstanceLiteral`.
 -/
 import GormModel.Model.Handle
+import GormModel.Lemmas.Handle
 import GormModel.Gen.CallSites
 namespace Gorm
 open Gen
@@ -45,32 +46,128 @@ theorem C18_fresh_statements :
         (f.2 = "db.Statement.Context" ∨ f.2 = "stmt.Context" ∨ (f.2 = "context.Background()" ∧ l.fn = "Open"))) := by
   decide
 
-/-- MAIN (flow): along ANY derivation path made of chain-method/finisher entries (`getInstance`) and
-    internal session call sites taken from the source, the statement's context stays the one the
-    handle was bound to.  Induction over the path; the per-step facts are the regenerated tables. -/
-theorem C18_flow (h : Handle) (ds : List Deriv)
-    (hint : ∀ d ∈ ds, ∀ u, d = .session u → u ∈ sessionUses ∧ u.fn ≠ "DB.WithContext") :
+/-- prepared-statement wrappers: the receivers of the driver calls in prepare_stmt.go are the pool
+    they wrap, or -- inside a transaction -- the statement re-bound to the transaction WITH THE SAME
+    `ctx` (`Tx.StmtContext(ctx, …)` may prepare the statement again on the transaction's connection) -/
+theorem C18_stmt_context :
+    ∀ s ∈ callSites, s.file = "prepare_stmt.go" →
+      s.recv ∈ ["conn", "beginner", "stmt", "tx.Tx.StmtContext(ctx, stmt.Stmt)"] := by
+  decide
+
+/-- the ONLY assignment to a `Context` field anywhere in the non-test source is the one in
+    `Session()` (whose guard is the subject of `C18_session_context_set`) -/
+theorem C18_context_writes :
+    contextWrites = [("gorm.go", "DB.Session", "tx.Statement.Context", "config.Context")] := by decide
+
+/-- gorm manufactures no context: every call into package `context` is `context.Background()`,
+    handed to a logger method or stored as the ROOT handle's context in `Open` -/
+theorem C18_context_makes :
+    ∀ m ∈ contextMakes, m.2.2.1 = "context.Background()" ∧
+      (m.2.2.2 ∈ ["arg:Warn", "arg:Error", "arg:Info", "arg:Trace"] ∨
+       (m.1 = "gorm.go" ∧ m.2.1 = "Open" ∧ m.2.2.2 = "field:Context")) := by decide
+
+/-- … and declares no context wrapper type: the structs holding a `context.Context` are the
+    session literal, the statement and the serializer value, none of them embeds it -/
+theorem C18_context_holders :
+    ∀ h ∈ contextHolders, h.2.2 ≠ "<embedded>" ∧ h.2.1 ∈ ["Session", "Statement", "serializer"] := by decide
+
+/-- the model knows every field of `type Session struct` (a new field means a new way of
+    configuring a session: the flag model must be revisited) -/
+theorem C18_session_fields : sessionFieldTypes = knownSessionFields := by decide
+
+/-- `getInstance()` read from its regenerated body: whatever the receiver's clone mode (0 = itself,
+    1 = fresh statement, ≥ 2 = cloned statement) the handle it returns carries the receiver's
+    context, every relevant statement sits under a condition the model can evaluate and nothing
+    unknown writes the handle / statement / context. -/
+theorem C18_getInstance_body (clone : Nat) : giCtx clone = .parent := by
+  have key : ∀ pos one : Bool, (one = true → pos = true) →
+      (giRunB pos one).bad.isEmpty = true ∧ (giRunB pos one).returned = true ∧
+      (giRunB pos one).result = some .parent := by decide
+  have hc : ((clone == 1) = true → decide (clone > 0) = true) := by
+    intro h; have : clone = 1 := by simpa using h
+    subst this; decide
+  obtain ⟨h1, h2, h3⟩ := key (decide (clone > 0)) (clone == 1) hc
+  simp [giCtx, h1, h2, h3]
+
+/-- what `Session()` must achieve for the context, for one flag valuation -/
+def SessionGood (want : CtxSym) (r : SessState) : Prop :=
+  r.ok = true ∧ r.stmt = want ∧ r.next = want ∧ r.parentStmt = .parent
+
+instance (want : CtxSym) (r : SessState) : Decidable (SessionGood want r) := by
+  unfold SessionGood; exact inferInstance
+
+/-- MAIN (binding): for EVERY combination of Session flags, a non-nil `Context` ends up on the
+    statement of the returned handle AND on the statement the next `getInstance()` works with,
+    and the receiver's own statement is not written.  Read from the regenerated body of
+    `Session()` (guards of `tx.Statement = tx.Statement.clone()` and of
+    `tx.Statement.Context = config.Context`); all 2^15 valuations are covered through the
+    reduction `forall_flags_of_subsets` to the flags the guards actually test. -/
+theorem C18_session_context_set (fl : SessFlags) (h : fl .hasContext = true) :
+    SessionGood .config (sessionRun fl) := by
+  apply forall_flags_of_subsets sessionProg (SessionGood .config) true _ fl h
+  set_option maxRecDepth 20000 in decide
+
+/-- … and without a `Context` the session inherits the receiver's context, for every combination
+    of the other flags (NewDB, PrepareStmt, SkipHooks, Initialized, …). -/
+theorem C18_session_context_inherited (fl : SessFlags) (h : fl .hasContext = false) :
+    SessionGood .parent (sessionRun fl) := by
+  apply forall_flags_of_subsets sessionProg (SessionGood .parent) false _ fl h
+  set_option maxRecDepth 20000 in decide
+
+/-- steps that must keep the bound context: chain-method / finisher entries, internal session call
+    sites taken from the source (with whatever values their flag expressions take), and the
+    caller's own sessions that do not name a context -/
+def Deriv.keeps : Deriv → Prop
+  | .getInstance => True
+  | .session u _ => u ∈ sessionUses ∧ u.fn ≠ "DB.WithContext"
+  | .userSession fl _ => fl .hasContext = false
+
+theorem C18_step_keeps (h : Handle) (d : Deriv) (hk : d.keeps) : (h.step d).ctx = h.ctx := by
+  cases d with
+  | getInstance =>
+    simp only [Handle.step]
+    by_cases h0 : h.clone = 0
+    · simp [h0]
+    · simp [h0, C18_getInstance_body, CtxSym.concrete]
+  | session u fl =>
+    have hs := C18_sessions u hk.1 hk.2
+    simp only [Handle.step]
+    rcases hs with hn | ⟨e, he, hmem⟩
+    · have g := C18_session_context_inherited (fl.withCtx false) (by simp [SessFlags.withCtx])
+      simp [hn, Handle.afterSession, g.1, g.2.1, CtxSym.concrete]
+    · have g := C18_session_context_set (fl.withCtx true) (by simp [SessFlags.withCtx])
+      have hc : ownContextExprs.contains e = true := by simpa using hmem
+      simp [he, Handle.afterSession, g.1, g.2.1, CtxSym.concrete, hmem]
+  | userSession fl c =>
+    have g := C18_session_context_inherited fl hk
+    simp [Handle.step, Handle.afterSession, g.1, g.2.1, CtxSym.concrete]
+
+/-- MAIN (flow): along ANY derivation path made of chain-method/finisher entries (`getInstance`),
+    internal session call sites taken from the source and caller sessions without a context -- with
+    ANY flag values -- the statement's context stays the one the handle was bound to.  Induction
+    over the path; the per-step facts are the regenerated tables and bodies. -/
+theorem C18_flow (h : Handle) (ds : List Deriv) (hint : ∀ d ∈ ds, d.keeps) :
     (h.derive ds).ctx = h.ctx := by
   unfold Handle.derive
   induction ds generalizing h with
   | nil => rfl
   | cons d ds ih =>
     simp only [List.foldl_cons]
-    have hstep : (h.step d).ctx = h.ctx := by
-      cases d with
-      | getInstance =>
-        have hc := C18_copy_facts
-        simp only [Handle.step]
-        by_cases h0 : h.clone = 0 <;> by_cases h1 : h.clone = 1 <;> simp [h0, h1, hc.1, hc.2.1]
-      | session u =>
-        have hu := hint (.session u) (by simp) u rfl
-        have hs := C18_sessions u hu.1 hu.2
-        simp only [Handle.step]
-        rcases hs with hn | ⟨e, he, hmem⟩
-        · simp [hn]
-        · simp [he, hmem, C18_copy_facts.2.2.2.2.1]
     rw [ih (h.step d) (fun d' hd' => hint d' (List.mem_cons_of_mem _ hd'))]
-    exact hstep
+    exact C18_step_keeps h d (hint d (by simp))
+
+/-- MAIN (re-binding, "the later wins"): whatever happened before, a caller session naming context
+    `c` -- combined with ANY other flags -- followed by any context-keeping path leaves exactly `c`
+    on the statement the operation runs with. -/
+theorem C18_rebind (h : Handle) (before after : List Deriv) (fl : SessFlags) (c : Nat)
+    (hc : fl .hasContext = true) (hafter : ∀ d ∈ after, d.keeps) :
+    (h.derive (before ++ .userSession fl c :: after)).ctx = c := by
+  have happ : h.derive (before ++ .userSession fl c :: after)
+      = ((h.derive before).step (.userSession fl c)).derive after := by
+    simp [Handle.derive, List.foldl_append]
+  rw [happ, C18_flow _ after hafter]
+  have g := C18_session_context_set fl hc
+  simp [Handle.step, Handle.afterSession, g.1, g.2.1, CtxSym.concrete, hc]
 
 /-- a Session that clones the statement for SkipHooks/PrepareStmt keeps the context too -/
 theorem C18_session_clone (h : Handle) : h.sessionClone.ctx = h.ctx := by
@@ -79,5 +176,11 @@ theorem C18_session_clone (h : Handle) : h.sessionClone.ctx = h.ctx := by
 /-- non-vacuity: a concrete path through real call sites (preload session, callMethod session) -/
 example : ∃ u ∈ sessionUses, u.fn = "preloadDB" ∧ u.ctxField = some "db.Statement.Context" := by decide
 example : ({ ctx := 7, clone := 1 } : Handle).derive [.getInstance, .getInstance] = { ctx := 7, clone := 0 } := by decide
+/-- the flag combination `Session{NewDB: true, Context: c}` on a handle bound to 7: the next statement runs with `c` = 9 -/
+example : (({ ctx := 7, clone := 2 } : Handle).derive
+    [.userSession (SessFlags.ofList [.newDB, .hasContext]) 9, .getInstance]) = { ctx := 9, clone := 0 } := by decide
+example : (sessionRun (SessFlags.ofList [.newDB, .hasContext])).shared = false := by decide
+example : (sessionRun (SessFlags.ofList [.newDB])).shared = true := by decide
+example : sessionProg.length ≥ 5 ∧ (progFlags sessionProg).length ≥ 5 := by decide
 
 end Gorm
